@@ -2,7 +2,7 @@ import UralModel.Lemmas.CanonIdem
 /-!
 # The host rule keeps an ip literal acceptable
 
-`canonicalize_url` prints a bracketed host between brackets again (FX-C01-IPBRACKETS); the
+`canonicalize_url` prints a bracketed host between brackets again (FX-C01-feb1ed1); the
 parser will then run its bracket check (`Py.bracketedHostOk`, the model of
 `_check_bracketed_host`) on the *canonical* host — lower-cased by the accessor (`lowerHost`),
 its `xn--` labels decoded and the whole lower-cased again (`canonHost`).  This file proves
